@@ -278,7 +278,7 @@ pub mod hx_graph {
         let n = e.negate();
         assert!(n.node() == e.node() && n.is_negated() == !e.is_negated(), "negate does not flip exactly the polarity");
         assert!(n.negate() == e, "negate is not an involution");
-        assert!(e.negate_if(c) == if c { e.negate() } else { e }, "negate_if(c) != if c {negate} else {self}");
+        assert!(e.negate_if(c) == if c { e.negate() } else { e }, "negate_if(c) is not: negate when c, identity otherwise");
         assert!(e.negate_if(c).node() == e.node() && e.negate_if(c).is_negated() == (e.is_negated() ^ c));
         assert!(AigEdge::CONST0.node() == 0 && !AigEdge::CONST0.is_negated(), "CONST0 is not (node 0, +)");
         assert!(AigEdge::CONST1.node() == 0 && AigEdge::CONST1.is_negated(), "CONST1 is not (node 0, -)");
